@@ -267,6 +267,7 @@ def run(F, R, tier, cfg):
     peer_cost_rule(F, R)
     loop_cover_rule(F, R)
     key_eq_rule(F, R)
+    segment_eq_rule(F, R)
 
 
 HAS_LOOPS = "sciparse::scion::path::combinator::has_loops"
@@ -387,6 +388,50 @@ def key_eq_rule(F, R):
             R.violation("KEY-eq", ISEG_EQ + "/" + V, "InputSegment::eq does not compare the wrapped PathSegment of %s keys: two different segments "
                         "with the same hops (a refreshed beacon, different peer entries) share one edge-map key and add_directed_edge keeps "
                         "the first segment with the last edge" % V, F.loc(cands[0]))
+
+
+def _struct_eq_fields(F, p):
+    """fields f for which the eq body compares param#1.f with param#2.f (call to an eq/ne or a primitive Eq/Ne)"""
+    b = F.body(p)
+    got = set()
+    pairs = []
+    for c in b.calls:
+        if c.callee and re.search(r"::(eq|ne)$", c.callee) and len(c.args) >= 2:
+            pairs.append((strip_sites(b.origin(c.args[0])), strip_sites(b.origin(c.args[1]))))
+    for bb in sorted(b.live_blocks()):
+        for st in b.stmts(bb):
+            if st[0] == "=" and st[2][0] == "bin" and st[2][1] in ("Eq", "Ne"):
+                pairs.append((strip_sites(b.origin(st[2][2])), strip_sites(b.origin(st[2][3]))))
+    for (l, r) in pairs:
+        fl = {x[2] for x in walk(l) if x[0] == "field" and _nrf(x[1]) in (("param", 1), ("param", 2))}
+        fr = {x[2] for x in walk(r) if x[0] == "field" and _nrf(x[1]) in (("param", 1), ("param", 2))}
+        pl = {_nrf(x[1]) for x in walk(l) if x[0] == "field" and _nrf(x[1]) in (("param", 1), ("param", 2))}
+        pr = {_nrf(x[1]) for x in walk(r) if x[0] == "field" and _nrf(x[1]) in (("param", 1), ("param", 2))}
+        if pl and pr and pl != pr:
+            got |= (fl & fr)
+    return got
+
+
+def segment_eq_rule(F, R):
+    """KEY-eq (continued): the wrapped comparison is PathSegment::eq; it and SegmentInfo::eq compare every field of their
+    struct (timestamp, segment id, encoded info, AS entries) — an equality that skips the timestamp or the entries merges a
+    refreshed beacon with the old one in the edge maps exactly as an id-only key would."""
+    for ty, pat in (("sciparse::scion::segment::PathSegment", r"<sciparse::scion::segment::PathSegment<.*> as core::cmp::PartialEq>::eq$"),
+                    ("sciparse::scion::segment::SegmentInfo", r"<sciparse::scion::segment::SegmentInfo as core::cmp::PartialEq>::eq$")):
+        cands = F.find_fns(lambda q: re.match(pat, q))
+        a = F.adts.get(ty)
+        if len(cands) != 1 or F.body(cands[0]) is None or not a:
+            R.anchor_missing(ty + " PartialEq::eq")
+            continue
+        R.fn(cands[0])
+        fields = [f[0] for f in a["variants"][0][2]]
+        got = _struct_eq_fields(F, cands[0])
+        missing = [f for f in fields if f not in got]
+        R.ob("KEY-eq", "%s::eq compares every field %s" % (ty.rsplit("::", 1)[1], fields), not missing, True,
+             {"rule": "KEY-eq", "fn": cands[0], "fields": fields, "compared": sorted(got)})
+        if missing:
+            R.violation("KEY-eq", cands[0] + "/fields", "%s::eq does not compare %s: segments differing only there are one key of the combinator's "
+                        "edge maps (first segment kept, last edge kept)" % (ty.rsplit("::", 1)[1], missing), F.loc(cands[0]))
 
 
 ADD_NC = G + "MultiGraph::<'a, F, EntryType>::add_non_core_segment"
